@@ -297,7 +297,10 @@ class extract_visitor(NodeVisitor):
 
     def visit_Return(self, node):
         # type: (ast.Return) -> None
-        self.flow.scope.returns.append(node.value)  # type: ignore[attr-defined]
+        # ast.parse accepts ``return`` at module and class level
+        returns = getattr(self.flow.scope, 'returns', None)
+        if returns is not None:
+            returns.append(node.value)
         self.generic_visit(node)
 
     def visit_ListComp(self, node):
